@@ -123,7 +123,8 @@ def check_text(v, impl, fmt, text, cen, fault):
 
 
 def run_case(case):
-    prog, cfg, faults, cleanups, hooks = case
+    dupnames = len(case) > 5 and case[5]
+    prog, cfg, faults, cleanups, hooks = case[:5]
     cfgd = dict(runcases.CFGS[cfg] if isinstance(cfg, str) else cfg)
     holder = {}
     ud_fmt = FORMATS[len(repr(case)) % 5]
@@ -145,8 +146,18 @@ def run_case(case):
         holder["reps"] = reps
         return [r for _, _, r in reps]
 
+    texts = None
+    if dupnames:
+        # all scenarios / outlines / rules carry the SAME title (legal; elements are told apart by their location only)
+        import re as _re
+        texts = []
+        for fi, f in enumerate(prog):
+            t = P.render(f, fi)[0]
+            t = _re.sub(r"(Scenario Outline|Scenario|Rule): \S+", r"\1: Same title", t)
+            t = _re.sub(r"Examples: \S+", "Examples: E", t)
+            texts.append(t)
     obs = harness.run_case(prog, cfgd, faults=faults, cleanups=cleanups, hooks=hooks, reporters=reporters,
-                           keep_model=True)
+                           keep_model=True, texts=texts)
     v = []
     if obs["escaped"]:
         v.append(({"subcheck": "run", "clause": "exception-escapes-run", "exc": obs["escaped"]},
@@ -253,9 +264,23 @@ def empty_container_cases(tier):
                 yield ((P.SECOND_FEATURE, pr[0]), cfg, None, None, False)
 
 
+def dupname_cases(tier):
+    """several failing / erroring scenarios with identical titles, within one feature and across two features"""
+    f1 = P.F((P.S(("pass", "pass")), P.S(("pass",)), P.R((P.S(("pass",)), P.O((("pass",), ("pass",)))))))
+    f2 = P.F((P.S(("pass",)), P.S(("pass", "pass"))), bg=("pass",))
+    for a in (f1, f2):
+        for b in (f2, f1):
+            for nd, pa in P.deviations((a,), 2, outcomes=("fail", "error", "undefined"), second=("fail", "error")):
+                for ob in ("pass", "fail", "error"):
+                    pb = P.set_outcome((b,), P.positions((b,))[-1], ob)
+                    for cfg in ("default", "stop"):
+                        yield ((pa[0], pb[0]), cfg, None, None, False, True)
+
+
 def run(ctx):
     ctx.bounds = {"runs": "C01 enumeration restricted to shapes with " + ("<=3 step positions (faults: <=2)" if ctx.quick else "<=5 step positions (all fault cases)"),
                   "implementations": 3, "formats": 5}
     ctx.sweep(run_case, cases(ctx.tier), chunk=32, name="runs x (reporter + walked collector) x 5 formats")
     ctx.sweep(run_case, empty_container_cases(ctx.tier), chunk=32, name="childless containers with siblings")
+    ctx.sweep(run_case, dupname_cases(ctx.tier), chunk=32, name="identical titles on failing/erroring scenarios")
     ctx.guard(len(ctx.outcomes) > 20, "at least 20 distinct status mixes")
